@@ -117,7 +117,7 @@ def run_tlc(module, cfg_text, workdir, workers=None, env=None, timeout=1800, sim
         fh.write(cfg_text)
     if workers is None:
         workers = min(NCPU, 16)
-    jopts = ["-Xss1g", "-Xmx" + xmx, "-XX:+UseParallelGC"]
+    jopts = ["-Xss1g", "-Xmx" + xmx, "-XX:+UseParallelGC", "-XX:ParallelGCThreads=%d" % max(2, min(8, workers))]
     if deque:
         jopts.append("-Dtlc2.tool.queue.IStateQueue=StateDeque")
     cmd = ["java"] + jopts + ["-cp", "/opt/veriftools/tla/tla2tools.jar:/opt/veriftools/tla/CommunityModules-deps.jar",
@@ -175,8 +175,8 @@ def run_tlc(module, cfg_text, workdir, workers=None, env=None, timeout=1800, sim
             m = re.match(r"Error: Action property (\w+) is violated", line)
             if m:
                 res.violated = m.group(1)
-        if in_err and len(err_lines) < 60:
-            err_lines.append(line)
+        if in_err and len(err_lines) < 60 and not line.startswith('<<"'):
+            err_lines.append(line[:400])
     if err_lines:
         res.error = "\n".join(err_lines)
     res.ok = (rc == 0 and not err_lines and not res.timeout
@@ -351,7 +351,12 @@ def sha(s):
     return hashlib.sha256(s.encode()).hexdigest()[:16]
 
 
-def validate_trace(module, trace_path, constants, name, shards=8, timeout=1800, xmx="3g", boundary=None):
+class RejList(list):
+    """indices of rejected records, with .reasons: index -> verdict text"""
+    reasons = {}
+
+
+def validate_trace(module, trace_path, constants, name, shards=8, timeout=1800, xmx="3g", boundary=None, extra_cfg=""):
     """impl -> spec: run the trace specification `module` over an ndjson trace.  The trace is cut
     into shards (records are independent or delimited by the caller), each validated by a
     single-worker TLC.  Returns (accepted, rejected_indices (0-based, global), tlc results)."""
@@ -381,7 +386,7 @@ def validate_trace(module, trace_path, constants, name, shards=8, timeout=1800, 
         with open(tp, "w") as fh:
             fh.writelines(part)
         jobs.append((k, d, tp, len(part)))
-    cfg_text = cfg(constants, invariants=(), extra="POSTCONDITION Consumed")
+    cfg_text = cfg(constants, invariants=(), extra=("POSTCONDITION Consumed\n" + extra_cfg).strip())
 
     def one(job):
         k, d, tp, cnt = job
@@ -406,4 +411,6 @@ def validate_trace(module, trace_path, constants, name, shards=8, timeout=1800, 
             rejected.append(cuts[k] + (i - 1))
             reasons[cuts[k] + (i - 1)] = why
     validate_trace.reasons = reasons
-    return n - len(rejected), sorted(rejected), tlcs, lines
+    rej = RejList(sorted(rejected))
+    rej.reasons = reasons
+    return n - len(rejected), rej, tlcs, lines
